@@ -716,22 +716,36 @@ pub fn gen_c10(r: &mut Rng, id: usize) -> Group {
     let spell_pool: &[&str] = &["1", "1.0", "1e0", "10e-1", "2", "2.0", "\"a\"", "\"\\u0061\"", "\"b\"", "null", "true", "[1,2]", "[1.0,2]", "[1, 2]", "{\"a\":1}", "{\"a\":1.0}", "{\"a\": 1}",
                               "0.5", "5e-1", "\"\"", "[]", "{}", "[[1]]", "[[1.0]]", "\"é\"", "\"\\u00e9\"", "100", "1e2", "1E2",
                               // zero in its (non-negative) spellings: all the same number
-                              "0", "0.0", "0e0", "0.00", "0E3", "[0,1]", "[0.0,1]", "{\"a\":0}", "{\"a\":0.0}"];
+                              "0", "0.0", "0e0", "0.00", "0E3", "[0,1]", "[0.0,1]", "{\"a\":0}", "{\"a\":0.0}",
+                              // neighbouring doubles: different numbers, however close
+                              "0.3", "0.30000000000000004", "[0.3]", "[0.30000000000000004]", "{\"a\":0.3}", "{\"a\":0.30000000000000004}", "1e-20", "2e-20",
+                              "0.1", "0.10000000000000002", "3e-1"];
     let n = r.range(0, 40);
     let mut text = String::new();
     let selections = r.below(3);
+    // which spelling every row carries in `k` / `j` (None = member absent): the oracle needs it
+    let mut row_keys: Vec<(Option<usize>, Option<usize>)> = vec![];
+    // a run draws from a small part of the pool, so that every pair of its spellings can be put to `=`
+    let sub: Vec<usize> = (0..r.range(2, 9)).map(|_| r.below(spell_pool.len())).collect();
     for i in 0..n {
-        let k = r.pick(spell_pool);
+        let ki = *r.pick(&sub);
+        let k = spell_pool[ki];
         if selections > 0 {
             let mut fields = vec![];
+            let mut rk = (None, None);
             if r.chance(85) {
                 fields.push(format!("\"k\":{k}"));
+                rk.0 = Some(ki);
             }
             if r.chance(70) {
-                fields.push(format!("\"j\":{}", r.pick(spell_pool)));
+                let ji = *r.pick(&sub);
+                fields.push(format!("\"j\":{}", spell_pool[ji]));
+                rk.1 = Some(ji);
             }
+            row_keys.push(rk);
             text.push_str(&format!("{{\"id\":{i},{}}}\n", fields.join(",")).replace(",}", "}"));
         } else {
+            row_keys.push((Some(ki), None));
             text.push_str(k);
             text.push('\n');
         }
@@ -751,12 +765,39 @@ pub fn gen_c10(r: &mut Rng, id: usize) -> Group {
     let mut twin = c.clone();
     twin.id = format!("{}-nounique", twin.id);
     twin.spec.unique = false;
-    let mut g = Group::new(vec![c, twin]);
+    // third case: what `=` says about every pair of spellings of this run
+    let mut used: Vec<usize> = sub.clone();
+    used.sort();
+    used.dedup();
+    let mut pairs: Vec<(usize, usize)> = vec![];
+    let mut ptext = String::new();
+    for (x, a) in used.iter().enumerate() {
+        for b in used.iter().skip(x + 1) {
+            pairs.push((*a, *b));
+            ptext.push_str(&format!("{{\"a\":{},\"b\":{}}}\n", spell_pool[*a], spell_pool[*b]));
+        }
+    }
+    let mut eqc = case(format!("C10-{id}-eq"));
+    eqc.spec.selects.push("(= .a .b)=e".into());
+    eqc.sources.push(stdin_src(ptext.into_bytes()));
+    let filter_nulls = c.spec.filter.is_some();
+    let mut g = Group::new(vec![c, twin, eqc]);
     g.nontrivial = n >= 4;
+    g.tag = format!(
+        "sel={selections};fn={};pairs={};rows={}",
+        filter_nulls as u8,
+        pairs.iter().map(|(a, b)| format!("{a}-{b}")).collect::<Vec<_>>().join(","),
+        row_keys.iter().map(|(k, j)| format!("{}/{}", k.map(|x| x.to_string()).unwrap_or("-".into()), j.map(|x| x.to_string()).unwrap_or("-".into())))
+            .collect::<Vec<_>>().join(",")
+    );
+    // spelling index of `null` (rows dropped by the filter when nothing is selected)
     g.labels.push(format!("selections:{selections}"));
     g.labels.push(format!("rows:{}", bucket(n)));
     g
 }
+
+/// index of the spelling `null` in gen_c10's pool
+const C10_NULL_SPELLING: usize = 9;
 
 // ---------------------------------------------------------------------------------- C11
 
@@ -793,8 +834,22 @@ fn gen_c11_parent_rows(r: &mut Rng, n: usize) -> Vec<V> {
 pub fn gen_c11(r: &mut Rng, id: usize) -> Group {
     let u = key_universe_small();
     let special = r.chance(25);
-    let a = if special { let n_ = r.range(1, 8); gen_c11_parent_rows(r, n_) } else { let n_ = r.range(0, 20); gen_rows(r, n_, &u) };
-    let b = if special { let n_ = r.range(1, 8); gen_c11_parent_rows(r, n_) } else { let n_ = r.range(0, 20); gen_rows(r, n_, &u) };
+    // long streams of small records full of empty and nested containers: whatever the reader or a stage accumulates
+    // per record (depth counters, caches, buffers) must not leak into the records that follow
+    let long = !special && r.chance(12);
+    let long_rows = |r: &mut Rng, n: usize| -> Vec<V> {
+        (0..n).map(|i| match r.below(7) {
+            0 => V::Arr(vec![]),
+            1 => V::Obj(vec![]),
+            2 => V::Obj(vec![("id".into(), V::Int(i as i128)), ("k".into(), V::Arr(vec![])), ("l".into(), V::Obj(vec![]))]),
+            3 => V::Arr(vec![V::Arr(vec![]), V::Obj(vec![]), V::Arr(vec![V::Obj(vec![])])]),
+            4 => { let mut v = V::Arr(vec![]); for _ in 0..r.range(2, 30) { v = V::Arr(vec![v]); } v }
+            5 => { let mut v = V::Obj(vec![]); for d in 0..r.range(2, 20) { v = V::Obj(vec![(format!("d{d}"), v)]); } v }
+            _ => gen_rows(r, 1, &u).pop().unwrap(),
+        }).collect()
+    };
+    let a = if special { let n_ = r.range(1, 8); gen_c11_parent_rows(r, n_) } else if long { let n_ = r.range(30, 120); long_rows(r, n_) } else { let n_ = r.range(0, 20); gen_rows(r, n_, &u) };
+    let b = if special { let n_ = r.range(1, 8); gen_c11_parent_rows(r, n_) } else if long { let n_ = r.range(30, 120); long_rows(r, n_) } else { let n_ = r.range(0, 20); gen_rows(r, n_, &u) };
     let spec = if special {
         let mut s = Spec::default();
         match r.below(3) {
@@ -837,6 +892,9 @@ pub fn gen_c11(r: &mut Rng, id: usize) -> Group {
     let mut g = Group::new(cases);
     g.nontrivial = !a.is_empty() && !b.is_empty();
     g.labels.push(format!("style:{}", spec.style.clone().unwrap_or("json".into())));
+    if long {
+        g.labels.push("kind:long-stream".into());
+    }
     g
 }
 
@@ -884,6 +942,31 @@ pub fn gen_c12(r: &mut Rng, id: usize) -> Group {
         let e = r.ps(&["^.name", "(concat ^.name \"!\")", "(map (push [] 1) ^^.name)", "(set \"q\" 1 ^.one)"]).to_string();
         c.spec.selects.insert(0, format!("{e}=viaSplit0"));
         c.spec.selects.push(format!("{e}=viaSplit"));
+    }
+    if r.chance(40) {
+        // (| a b): b sees a's value as input and the previous input as its parent; the inputs further out stay where
+        // they were, one level up — each pipe form against the same expression written without the pipe
+        let pipes: &[(&str, &str)] = &[
+            // the documented chain of `pipe.rs`: the pipe first repeats its input as a frame of its own (so in the FIRST
+            // stage `^` is the input again and `^^` the enclosing input), then every stage pushes the value before it
+            ("(| .one ^.name)", ".name"),
+            ("(| .one ^^.name)", ".name"),
+            ("(| .one (| ^^.arr ^^^^.name))", ".name"),
+            ("(| .one (| ^^.arr (size .)))", "(size .arr)"),
+            ("(| .one (+ . 1))", "(+ .one 1)"),
+            ("(map .arr (| (stringify .) ^^^.name))", "(map .arr ^.name)"),
+            ("(map .arr (| (stringify .) ^))", "(map .arr .)"),
+            ("(| .arr (map . ^^.name))", "(map .arr ^.name)"),
+            ("(| .arr (map . (| . ^^^^^.one)))", "(map .arr ^.one)"),
+            ("(filter .arr (| . (= ^^^.one 1)))", "(filter .arr (= ^.one 1))"),
+            ("(| .arr (| (size .) (push [] . ^ ^^^^.name)))", "(push [] (size .arr) .arr .name)"),
+            ("(set \"x\" 5 (| .one (+ . :x)))", "(+ .one 5)"),
+            ("(| .one (set \"x\" ^.name (push [] . :x ^.name)))", "(push [] .one .name .name)"),
+        ];
+        let (pe, eq) = *r.pick(pipes);
+        // (a pipe whose first stage is nothing is nothing: compare on the records that have every member used)
+        c.spec.selects.push(format!("(? (and (string? .name) (number? .one)) {pe} \"skip\")=bound3"));
+        c.spec.selects.push(format!("(? (and (string? .name) (number? .one)) {eq} \"skip\")=plain3"));
     }
     c.sources.push(stdin_src(rec.as_bytes().to_vec()));
     let mut g = Group::new(vec![c]);
@@ -1937,6 +2020,60 @@ pub fn oracle(prop: &str, g: &Group, obs: &[Obs]) -> Option<String> {
                     return Some("a row disappeared although no equal row precedes it".into());
                 }
             }
+            // "two values are duplicates exactly when the = function says they are equal": the third run asked `=` about
+            // every pair of spellings of this stream; the rows --unique must keep follow from its answers alone
+            if obs.len() >= 3 && obs[2].res == "ok" && g.tag.starts_with("sel=") {
+                let mut parts = std::collections::HashMap::new();
+                for kv in g.tag.split(';') {
+                    if let Some((k, v)) = kv.split_once('=') {
+                        parts.insert(k, v);
+                    }
+                }
+                let sel: usize = parts.get("sel").and_then(|x| x.parse().ok()).unwrap_or(0);
+                let filter_nulls = parts.get("fn") == Some(&"1");
+                let pairs: Vec<(usize, usize)> = parts.get("pairs").map(|p| p.split(',').filter_map(|x| {
+                    let (a, b) = x.split_once('-')?;
+                    Some((a.parse().ok()?, b.parse().ok()?))
+                }).collect()).unwrap_or_default();
+                let answers = parse_rows(&obs[2].out, "\n").ok()?;
+                if answers.len() != pairs.len() {
+                    return Some(format!("`=` answered {} of {} pairs", answers.len(), pairs.len()));
+                }
+                let mut eq: std::collections::HashMap<(usize, usize), bool> = Default::default();
+                for (p, a) in pairs.iter().zip(&answers) {
+                    let e = matches!(get_key(a, "e"), Some(V::Bool(true)));
+                    eq.insert(*p, e);
+                    eq.insert((p.1, p.0), e);
+                }
+                let same = |a: Option<usize>, b: Option<usize>| -> bool {
+                    match (a, b) {
+                        (None, None) => true,
+                        (Some(x), Some(y)) => x == y || *eq.get(&(x, y)).unwrap_or(&false),
+                        _ => false,
+                    }
+                };
+                let idx = |t: &str| -> Option<usize> { if t == "-" { None } else { t.parse().ok() } };
+                let mut keys: Vec<(Option<usize>, Option<usize>)> = parts.get("rows").filter(|x| !x.is_empty()).map(|p| p.split(',').filter_map(|x| {
+                    let (a, b) = x.split_once('/')?;
+                    Some((idx(a), idx(b)))
+                }).collect()).unwrap_or_default();
+                if sel == 0 && filter_nulls {
+                    keys.retain(|k| k.0 != Some(C10_NULL_SPELLING));
+                }
+                if keys.len() == nr.len() {
+                    let mut want: Vec<&Vec<u8>> = vec![];
+                    for (i, k) in keys.iter().enumerate() {
+                        let dup = keys[..i].iter().any(|p| same(p.0, k.0) && (sel < 2 || same(p.1, k.1)));
+                        if !dup {
+                            want.push(&nr[i]);
+                        }
+                    }
+                    let got: Vec<&Vec<u8>> = ur.iter().collect();
+                    if got != want {
+                        return Some(format!("--unique kept {} rows; removing exactly the rows that `=` calls equal to an earlier row keeps {}", got.len(), want.len()));
+                    }
+                }
+            }
             None
         }
         "C11" => {
@@ -1964,7 +2101,7 @@ pub fn oracle(prop: &str, g: &Group, obs: &[Obs]) -> Option<String> {
                 return Some(format!("run gave {}", o.res));
             }
             for row in parse_rows(&o.out, "\n").ok()? {
-                for (x, y) in [("bound", "plain"), ("bound2", "plain2"), ("viaSplit0", "viaSplit")] {
+                for (x, y) in [("bound", "plain"), ("bound2", "plain2"), ("bound3", "plain3"), ("viaSplit0", "viaSplit")] {
                     if get_key(&row, x) != get_key(&row, y) {
                         return Some(format!("{x} = {:?} but {y} = {:?}", get_key(&row, x).map(value::render), get_key(&row, y).map(value::render)));
                     }
